@@ -7,6 +7,8 @@
 package faultsys
 
 import (
+	"runtime"
+	"io/ioutil"
 	"context"
 	"fmt"
 	"io"
@@ -52,6 +54,7 @@ type System struct {
 	Kills   int
 	live    []*bigmachine.Machine
 	used    map[string]bool
+	Factor  float64 // load factor applied by Relax
 	Reused  int // replacement machines that came up on a killed machine's address (and were replaced)
 	enabled bool
 }
@@ -295,7 +298,7 @@ func (s *System) observe(method, addr, phase string, ordinal int) (drop bool) {
 			drop = true
 		}
 		if t.HoldMs > 0 {
-			time.Sleep(time.Duration(t.HoldMs) * time.Millisecond)
+			time.Sleep(s.Stretch(time.Duration(t.HoldMs) * time.Millisecond))
 		}
 	}
 	return drop
@@ -396,3 +399,42 @@ func (c *cutBody) Read(p []byte) (int, error) {
 }
 
 func (c *cutBody) Close() error { return c.rc.Close() }
+
+// LoadFactor is max(1, 1-minute load average per CPU), capped at 8.
+func LoadFactor() float64 {
+	b, err := ioutil.ReadFile("/proc/loadavg")
+	if err != nil {
+		return 1
+	}
+	var l1 float64
+	if _, err := fmt.Sscanf(string(b), "%f", &l1); err != nil {
+		return 1
+	}
+	f := l1 / float64(runtime.NumCPU())
+	if f < 1 {
+		return 1
+	}
+	if f > 8 {
+		return 8
+	}
+	return f
+}
+
+// Relax stretches the keepalive timeouts (set before) by the host's load factor, so that a busy host
+// does not make healthy machines look lost, and returns the factor; waits that depend on the
+// detection of a loss ("sleep until the driver has noticed") must be stretched by it too.
+func (s *System) Relax() float64 {
+	f := LoadFactor()
+	s.KeepaliveTimeout = time.Duration(float64(s.KeepaliveTimeout) * f)
+	s.KeepaliveRpcTimeout = time.Duration(float64(s.KeepaliveRpcTimeout) * f)
+	s.Factor = f
+	return f
+}
+
+// Stretch scales a wait by the factor of the last Relax (1 if never relaxed).
+func (s *System) Stretch(d time.Duration) time.Duration {
+	if s.Factor <= 1 {
+		return d
+	}
+	return time.Duration(float64(d) * s.Factor)
+}
